@@ -8,7 +8,7 @@
    per select case of streamLogsToChan (head notification taken, subscription error) and per new
    chain head.  `delivered` is the sequence of BlockLogs handed to the event handler.
 
-   env (picked in Init, constant afterwards): kind of every block, logBatchSize, followDistance.
+   env (picked in Init, constant afterwards): kind of every block, logBatchSize, followDistance, requested start.
    Block kinds: "none" no registry log; "one" one log; "two" two logs of one transaction;
    "rm" one removed log only; "mix" log, removed log, log of the next transaction.
 
@@ -27,7 +27,16 @@
      "noAdvance"       the forwarding loop does not advance the cursor per delivered entry
      "skipFailedBatch" a failed batch is skipped on resume
      "keepRemoved"     removed logs are not filtered
-     "followOffByOne"  toBlock = head - followDistance + 1                                  *)
+     "followOffByOne"  toBlock = head - followDistance + 1
+
+   Actions that are NOT part of Next (the exhaustive replay configs keep their state graphs), used by NextR
+   (LogStream_restart.cfg) and by the trace specification LogStreamTrace:
+     Restart          cli/operator/node.go after the process died (Fatal on the third failure, or killed at any
+                      point): a new client, the ongoing stream resumes after the last block the handler processed
+     SubErrorPending  the subscription's error channel fires while head notifications are still queued (Go's
+                      select may take either; the queued notifications are dropped with the subscription)
+   BatchOKFrom / BatchErrFrom are BatchOK / BatchErr parameterised over the running fetch (next batch start, end
+   block, cursor), so that the trace specification can compose "head notification taken" with the first batch.  *)
 EXTENDS Integers, Sequences, FiniteSets, TLC
 
 CONSTANTS MaxHead,     \* the chain grows up to this block
@@ -43,7 +52,7 @@ CONSTANTS MaxHead,     \* the chain grows up to this block
           Weaken,      \* "none" | "noAdvance" | "skipFailedBatch" | "keepRemoved" | "followOffByOne"
           Hist         \* TRUE: the run starts with the historical sync
 
-VARIABLES env,         \* [kind : [1..MaxHead -> STRING], batch, follow]
+VARIABLES env,         \* [kind : [1..MaxHead -> STRING], batch, follow, start]
           head,        \* chain head of the execution node
           pc,          \* "hcall" | "hist" | "outer" | "idle" | "fetch" | "fatal"
           from, cur, last, tries,
@@ -72,7 +81,7 @@ FaultKinds == {"rpc", "drop"}     \* JSON-RPC error answer | connection closed u
 
 KindFns == IF KindSample = {} THEN {[b \in 1..MaxHead |-> IF b < Start THEN LowKind ELSE f[b]] : f \in [Start..MaxHead -> Kinds]}
            ELSE KindSample
-Init == /\ env \in {[kind |-> k, batch |-> bs, follow |-> fd] : k \in KindFns, bs \in Batches, fd \in Follows}
+Init == /\ env \in {[kind |-> k, batch |-> bs, follow |-> fd, start |-> Start] : k \in KindFns, bs \in Batches, fd \in Follows}
         /\ head = Head0 /\ pc = IF Hist THEN "hcall" ELSE "outer"
         /\ from = Start /\ cur = 0 /\ last = 0 /\ tries = 0 /\ pend = <<>> /\ fTo = 0 /\ fNext = 0
         /\ delivered = <<>> /\ faults = 0
@@ -148,39 +157,60 @@ TakeHead == /\ pc = "idle" /\ Len(pend) > 0
                   /\ act' = [name |-> "TakeHead", h |-> h, fetch |-> ok, a |-> cur, to |-> to]
             /\ UNCHANGED <<env, head, from, cur, last, tries, delivered, faults>>
 
-(* one eth_getLogs answered; its entries are forwarded to the handler *)
+(* one eth_getLogs answered; its entries are forwarded to the handler.
+   n = start of this batch, t = end block of the running fetch, c = the cursor before the batch *)
+BatchOKFrom(n, t, c) ==
+    LET a == n
+        b == Min(n + env.batch - 1, t)
+        es == BatchEntries(a, b)
+        lastb == es[Len(es)].b
+        done == b = t
+    IN /\ delivered' = delivered \o es
+       /\ last' = IF Algo = "code0" THEN lastb ELSE last
+       /\ cur' = IF done THEN t + 1
+                 ELSE IF Algo = "code0" \/ Weaken = "noAdvance" THEN c ELSE lastb + 1
+       /\ IF done THEN pc' = "idle" /\ fTo' = 0 /\ fNext' = 0
+          ELSE pc' = "fetch" /\ fNext' = b + 1 /\ fTo' = t
+       /\ act' = [name |-> "BatchOK", a |-> a, b |-> b, n |-> Len(es), done |-> done]
 BatchOK == /\ pc = "fetch"
-           /\ LET a == fNext
-                  b == Min(fNext + env.batch - 1, fTo)
-                  es == BatchEntries(a, b)
-                  lastb == es[Len(es)].b
-                  done == b = fTo
-              IN /\ delivered' = delivered \o es
-                 /\ last' = IF Algo = "code0" THEN lastb ELSE last
-                 /\ cur' = IF done THEN fTo + 1
-                           ELSE IF Algo = "code0" \/ Weaken = "noAdvance" THEN cur ELSE lastb + 1
-                 /\ IF done THEN pc' = "idle" /\ fTo' = 0 /\ fNext' = 0
-                    ELSE pc' = "fetch" /\ fNext' = b + 1 /\ UNCHANGED fTo
-                 /\ act' = [name |-> "BatchOK", a |-> a, b |-> b, n |-> Len(es), done |-> done]
+           /\ BatchOKFrom(fNext, fTo, cur)
            /\ UNCHANGED <<env, head, from, tries, pend, faults>>
 (* one eth_getLogs fails (the entries of the earlier batches have been forwarded) *)
-BatchErr == /\ pc = "fetch" /\ faults < MaxFaults /\ faults' = faults + 1
-            /\ LET ret == IF Algo = "code0" THEN last
-                          ELSE IF Weaken = "skipFailedBatch" THEN Min(fNext + env.batch, fTo + 1)
-                          ELSE cur
-               IN /\ Return(ret)
-                  /\ \E k \in FaultKinds :
-                       act' = [name |-> "BatchErr", kind |-> k, a |-> fNext, b |-> Min(fNext + env.batch - 1, fTo), ret |-> ret]
-            /\ UNCHANGED <<env, head, delivered>>
+BatchErrFrom(n, t, c) ==
+    /\ faults < MaxFaults /\ faults' = faults + 1
+    /\ LET ret == IF Algo = "code0" THEN last
+                  ELSE IF Weaken = "skipFailedBatch" THEN Min(n + env.batch, t + 1)
+                  ELSE c
+       IN /\ Return(ret)
+          /\ \E k \in FaultKinds :
+               act' = [name |-> "BatchErr", kind |-> k, a |-> n, b |-> Min(n + env.batch - 1, t), ret |-> ret]
+    /\ UNCHANGED <<env, head, delivered>>
+BatchErr == pc = "fetch" /\ BatchErrFrom(fNext, fTo, cur)
 (* subscription error / connection drop while waiting in the select (notifications all taken) *)
 SubError == /\ pc = "idle" /\ Len(pend) = 0 /\ faults < MaxFaults /\ faults' = faults + 1
             /\ Return(cur)
             /\ act' = [name |-> "SubError", kind |-> "drop", ret |-> cur]
             /\ UNCHANGED <<env, head, delivered>>
 
+(* NOT in Next: the error channel fires while notifications are still queued; they are dropped *)
+SubErrorPending == /\ pc = "idle" /\ faults < MaxFaults /\ faults' = faults + 1
+                   /\ Return(cur)
+                   /\ act' = [name |-> "SubError", kind |-> "drop", ret |-> cur]
+                   /\ UNCHANGED <<env, head, delivered>>
+(* NOT in Next: the process died (Fatal, or killed anywhere in the ongoing sync) and the node starts again:
+   node.go reads the last processed block from its storage (nothing stored: the configured start) *)
+Restart == /\ pc \in {"outer", "idle", "fetch", "fatal"}
+           /\ pc' = IF Hist THEN "hcall" ELSE "outer"
+           /\ from' = IF Len(delivered) > 0 THEN delivered[Len(delivered)].b + 1 ELSE env.start
+           /\ tries' = 0 /\ cur' = 0 /\ last' = 0 /\ pend' = <<>> /\ fTo' = 0 /\ fNext' = 0
+           /\ UNCHANGED <<env, head, delivered, faults>>
+           /\ act' = [name |-> "Restart", from |-> from']
+
 Next == NewBlock \/ HistCall \/ HistCallErr \/ HistBatchOK \/ HistBatchErr
         \/ SubscribeOK \/ SubscribeFail \/ TakeHead \/ BatchOK \/ BatchErr \/ SubError
 Spec == Init /\ [][Next]_vars
+NextR == Next \/ SubErrorPending \/ Restart
+SpecR == Init /\ [][NextR]_vars
 
 ----------------------------------------------------------------------------
 HasLogs(b) == Len(Valid(env.kind[b])) > 0
@@ -196,15 +226,15 @@ TypeOK == /\ head \in Head0..MaxHead /\ pc \in {"hcall", "hist", "outer", "idle"
    the handler refuses any entry whose number is not above the last processed one) *)
 StrictlyIncreasing == \A i \in 1..(Len(delivered) - 1) : delivered[i].b < delivered[i + 1].b
 ExactlyOnce == \A i, j \in 1..Len(delivered) : i # j => delivered[i].b # delivered[j].b
-NoRewind == \A i \in 1..Len(delivered) : delivered[i].b >= Start
+NoRewind == \A i \in 1..Len(delivered) : delivered[i].b >= env.start
 (* an entry carries exactly the block's non-removed logs, in order; a marker only for a block without any *)
 PerBlockComplete == \A i \in 1..Len(delivered) : delivered[i].logs = Valid(env.kind[delivered[i].b])
 (* when an entry is handed over, every earlier block >= Start that has logs has been handed over before it *)
-NoGapDelivered == \A i \in 1..Len(delivered) : \A b \in Start..(delivered[i].b - 1) :
+NoGapDelivered == \A i \in 1..Len(delivered) : \A b \in env.start..(delivered[i].b - 1) :
                      HasLogs(b) => \E j \in 1..(i - 1) : delivered[j].b = b
 (* nothing below the client's cursor is missing *)
 Cursor == IF Subscribed THEN cur ELSE from
-NoGapCursor == \A b \in Start..(Cursor - 1) : HasLogs(b) => b \in DeliveredBlocks
+NoGapCursor == \A b \in env.start..(Cursor - 1) : HasLogs(b) => b \in DeliveredBlocks
 (* only finalized-enough blocks are delivered *)
 FollowRespected == \A i \in 1..Len(delivered) : delivered[i].b + env.follow <= head
 (* after a completed fetch the stream is complete up to the cursor and the cursor is past every delivered entry *)
